@@ -59,11 +59,12 @@ let run (cases : case list) =
               | Some s1 ->
                 let (s', ok) = run_thread s1 TLoop (fun s -> s.c_loop = LWait) 1000000 in
                 st := s'; if not ok then dead := true)
-           | "stress" :: _ | "race" :: _ | ["expectidle"] -> ()
+           | "stress" :: _ | "race" :: _ | "regrace" :: _ | ["expectidle"] -> ()
            | _ -> failwith ("post: bad op " ^ op));
           if !dead then "DEADLOCK" else
           match toks with
           | ["race"; rounds; _; _] -> Printf.sprintf "race rounds=%s lost=0 pending=0 posted=0" rounds
+          | ["regrace"; ng; m] -> Printf.sprintf "regrace ran=%d pending=0 posted=0" (int_of_string ng * int_of_string m)
           | ["stress"; ng; m; nn; _] ->
             Printf.sprintf "stress ran=%d once=1 ordered=1 nested=1 offloop=0 pending=0 posted=0"
               (int_of_string ng * int_of_string m * (1 + int_of_string nn))
@@ -91,6 +92,9 @@ let run (cases : case list) =
           (match toks with
            | "race" :: _ ->
              if kv_def t "lost" "" <> "0" then fail i "7" op impl
+             else if kv_def t "pending" "" <> "0" || kv_def t "posted" "" <> "0" then fail i "6" op impl
+           | ["regrace"; ng; m] ->
+             if kv_def t "ran" "" <> string_of_int (int_of_string ng * int_of_string m) then fail i "5" op impl
              else if kv_def t "pending" "" <> "0" || kv_def t "posted" "" <> "0" then fail i "6" op impl
            | "stress" :: ng :: m :: nn :: _ ->
              let total = int_of_string ng * int_of_string m * (1 + int_of_string nn) in
